@@ -107,6 +107,12 @@ type Prop struct {
 
 var Registry = map[string]*Prop{}
 
+// Tier is the tier of the running check ("quick" or "thorough").
+var Tier = "quick"
+
+// SubModes are auxiliary process modes (e.g. a fresh process per call history).
+var SubModes = map[string]func(arg string) int{}
+
 func Register(p *Prop) { Registry[p.ID] = p }
 
 // ---------------------------------------------------------------------------------------------
